@@ -11,7 +11,7 @@ TRUST = ("Trusted base: rustc's type checker, borrow checker, trait resolution, 
 
 CHECKS = {
     "C13": {
-        "technique": "MIR abstract interpretation (pointer base/offset/extent) + delegation-shape rule",
+        "technique": "MIR abstract interpretation (pointer base/offset/extent) + delegation rule with recognised equivalent forms (slice impl, Iterator::cmp/partial_cmp/eq on the two full iterators, written-out Debug body, lexicographic loop)",
         "text": "Static analysis of the type-checked program: each of eq/partial_cmp/cmp/hash/Debug::fmt is shown to be a pure delegation to the same trait method of [T] on the full N-element views of its operands in parameter order, result returned unchanged; Borrow/BorrowMut/AsRef/AsMut<[T]> are shown to return that same view; the view constructors are shown to be (address of self, N). This holds for every T and N because the polymorphic MIR is analysed with N symbolic. It decides that the impls ARE the slice impls; what the slice impls compute is std's.",
         "design_ref": "DESIGN.md §3 C13",
         "note": TRUST + " Formatted strings / orderings themselves are those of core's [T] impls.",
@@ -19,26 +19,26 @@ CHECKS = {
 }
 
 CHECKS["C02"] = {
-    "technique": "MIR dataflow: guard facts dominate pointer reinterpretation (exact-extent proof) + delegation, signature-region and aggregate-position rules",
+    "technique": "MIR abstract interpretation on fully expanded, tree-shaped bodies: per-path postconditions (success exit = source address with source extent == target extent; rejecting exits only under len != N) + delegation, signature-region and aggregate-position rules",
     "text": "Static analysis of the polymorphic MIR (length N symbolic, so the verdict covers every N and T): the view constructors return (address of self, N elements); at each slice-to-array reborrow the dominating branch facts prove len == N exactly (a `<`/`>`/`>=` guard is reported), the rejecting exits are reached only under len != N, and the success value is the source pointer itself; [T; U] conversions have equal symbolic sizes under the Const<U>: IntoArrayLength<ArrayLength = N> clause; the trait forms delegate to those; the 24 tuple impls keep operand i at position i; every returned reference's region and mutability is tied to its source parameter. A sweep applies the exact-extent rule to any other slice-derived reborrow in the crate.",
     "design_ref": "DESIGN.md §3 C02",
     "note": TRUST + " 'A write through one view is seen through all others' is entailed by same address + same extent and is not separately observed.",
 }
 
 CHECKS["C09"] = {
-    "technique": "MIR abstract interpretation: symbolic piece maps (base, byte offset, extent) vs the Vec-operation spec; tiling proof; guard-dominance for the bounds assert",
+    "technique": "symbolic byte-provenance (segment lists with provably ordered symbolic boundaries) of the result of each owned operation vs the Vec-operation specification; tiling proof for the by-reference split; guard-dominance for the bounds assert",
     "text": "Static analysis of the polymorphic MIR (N, K, M and the index symbolic): for append/prepend/pop_back/pop_front/split (owned, &, &mut)/concat/remove(_unchecked)/swap_remove(_unchecked) every raw read, write, copy and swap is extracted with its symbolic byte offset and extent and compared with the specification of the corresponding Vec operation: which source range lands at which destination offset or result position, exact tiling of source/destination (nothing lost, duplicated or out of bounds), order of read / shift / truncating copy by dominance, idx < N proven at the call of the unchecked body with self not yet neutralised, unreachable_unchecked infeasible under that precondition, reference halves disjoint + adjacent + covering with no copy. Universally quantified over lengths and element types; nothing is executed.",
     "design_ref": "DESIGN.md §3 C09",
     "note": TRUST + " The panic message text is not checked.",
 }
 CHECKS["C10"] = {
-    "technique": "MIR abstract interpretation with floor-division axioms: tiling proof of the two from_raw_parts pieces; symbolic size equality at slice transmutes",
+    "technique": "MIR abstract interpretation with floor-division axioms: per return path, the returned views tile the source exactly (any construction idiom); symbolic size equality for the slice reinterpretations",
     "text": "Static analysis of the polymorphic MIR (slice length L and N symbolic): the two pieces built by chunks_from_slice(_mut) are proved to tile the source exactly (adjacent, no overlap, end at L), the remainder to be < N, the pieces to be reached only under N != 0, and the N = 0 branch to return empties only under L = 0 and to panic under L != 0; slice_from_chunks(_mut) covers exactly len*N elements from offset 0; from_chunks/into_chunks(_mut) transmute between slices of equal element size under the Const<U>: IntoArrayLength<ArrayLength = N> clause and return the source fat pointer; lifetimes/mutability tied to the source. PARTIAL: acceptance by the compiler's const evaluator is an execution and is not decided here.",
     "design_ref": "DESIGN.md §3 C10",
     "note": TRUST + " len*N overflow for zero-sized T with astronomically long slices is excluded by assumption.",
 }
 CHECKS["C11"] = {
-    "technique": "MIR abstract interpretation: symbolic size identities at const_transmute / reference transmutes; size-guard dominance inside const_transmute",
+    "technique": "symbolic byte-provenance for the owned forms (the result is exactly the bytes of self, moved once) and for const_transmute itself; address/extent/mutability postconditions for the reference forms",
     "text": "Static analysis of the six flatten/unflatten bodies (N, M, NM symbolic): owned forms are exactly one const_transmute whose source and target sizes are equal as polynomials (flatten) or target <= source with equality iff N | NM (unflatten; the guard inside const_transmute - union read dominated by size_of A == size_of B - is checked too); reference forms are exactly one transmute of the reference itself (same address), equal / in-bounds pointee extents, same mutability, lifetime tied to the receiver. Row-major order follows from contiguity (C01).",
     "design_ref": "DESIGN.md §3 C11",
     "note": TRUST + " typenum's Prod/Quot semantics are trusted.",
@@ -52,13 +52,13 @@ CHECKS["C01"] = {
 }
 
 CHECKS["C03"] = {
-    "technique": "per-operation ownership-linearity: symbolic tiling of duplicated/written pieces, closure position typestate (normal path), Drop-range extraction, finisher dominance, suppression-site inventory",
+    "technique": "per-operation ownership-linearity: byte provenance of the owned sequence operations, step protocol (closure or explicit loop: one read/write and one position advance per step), per-path partition of the iterator's claimed range, Drop-range extraction, finisher evidence (position == N or a full traversal), finish-to-hand-over window",
     "text": "Static analysis (MIR, lengths symbolic): 'exactly once over all histories' is reduced to ownership-linearity of each operation, which composes over any chain by induction. Checked: (T) in each by-value sequence operation the pieces read out of the drop-suppressed source / written into the uninitialised output tile it exactly once; (P) every element-moving closure reads (writes) its slot exactly once and advances each owner position exactly once per invocation on every path, untracked readers exist only under needs_drop == false; (R) each tracked owner's Drop releases exactly [0,position) / [position,N) / [index,index_back) of its own storage and the storage field has no drop glue; (F) every finish/forget/assume_init of a builder or iterator is reached only where position == N is implied by the dominating facts or after a full traversal of the owner's storage by a protocol closure; (S) every ManuallyDrop::new / mem::forget of a value with element drop glue belongs to an accounted pattern; (A) the assume_init family reinterprets whole storage of equal symbolic size. Nothing is executed; destructor calls are not observed.",
     "design_ref": "DESIGN.md §3 C03",
     "note": TRUST + " Panic-free histories only (panics: C04, C05). Vec/Box interop is safe std code or C15's instances.",
 }
 CHECKS["C04"] = {
-    "technique": "unwind-window typestate over MIR: ownership state at every call that can run caller code; owner liveness on unwind edges through drop flags; foreign-call classification from resolved callees",
+    "technique": "unwind-window typestate over MIR: ownership state at every call that can run caller code inside each element-moving step (closure or loop); owner liveness on unwind edges through drop flags; foreign-call classification from resolved callees",
     "text": "Static typestate analysis: every call terminator that can run caller-supplied code (closure calls, Clone/Default/Iterator::next/SeqAccess on generic types, generic drops, and crate functions that transitively contain one) is visited with the abstract ownership state at that point - in consumer closures every ptr::read-duplicated element has already been excluded from its owner, in builder closures/loops a written slot is already counted and never counted before written; each position is a field of a tracked owner whose storage the slots iterate, and drop elaboration drops that owner on the unwind path of the driving call (followed through drop flags); raw element writes outside closures are counted by a live owner before any later foreign call; helper-function models are verified against the helpers' bodies. This quantifies over every panic point because unwind edges are explicit in MIR; no panic is injected. It found the GenericArrayIter::clone leak (fixed, see known_findings.json).",
     "design_ref": "DESIGN.md §3 C04",
     "note": TRUST + " Overflow checks on positions are not treated as foreign code; a panic while dropping the caller's closure object itself is outside the property's quantifier.",
@@ -71,20 +71,20 @@ CHECKS["C05"] = {
 }
 
 CHECKS["C06"] = {
-    "technique": "refinement obligations by abstract interpretation of each iterator method under the invariant index <= index_back <= N; deque specification table",
+    "technique": "refinement obligations by abstract interpretation of each iterator method under the invariant index <= index_back <= N (private helpers expanded); nth/nth_back judged per return path against the deque specification; defaults of optional overrides accepted",
     "text": "Static refinement argument: with alpha(iter) = array[index..index_back] the queue behaviour over all interleavings follows by induction from per-method obligations, each decided on the polymorphic MIR with the invariant assumed at entry: invariant established by into_iter and preserved by every index store; next/next_back read exactly the slot their index update excludes, only under index < index_back, return Some of that slot and store nothing on the None path (fused); len/size_hint/count are index_back - index; nth/nth_back skip min(n, len) at the proper end then delegate; last = next_back; as_slice/as_mut_slice/Debug view exactly [index, index_back); fold/rfold traverse that range ascending/descending with one read + one index step before f(acc, value); clone copies [index, index_back) element-wise in order to the front of a fresh (0, count) iterator and never stores to the original; every get_unchecked index/range is in bounds under the invariant. Elements are opaque values of a type parameter, so which element = which index; nothing is executed.",
     "design_ref": "DESIGN.md §3 C06",
     "note": TRUST + " slice::Iter::fold/rfold direction and Zip pairing are trusted std; the formatted Debug string is not checked (the delegation is).",
 }
 
 CHECKS["C07"] = {
-    "technique": "guard-fact must-pass-through at the Ok construction + iterator pipeline term matching (Zip receiver order, take(N)) + owner liveness",
+    "technique": "per-path guard facts at every Ok / Err construction and every poll of the source (tree-shaped bodies, helpers expanded) + fill rule on the body with the builder's extend expanded (Zip receiver order, take(N)) + owner liveness",
     "text": "Static analysis of try_from_iter / try_boxed_from_iter / extend / from_iter: the Ok value is constructed only under the facts `destination full (position == N, resp. vec.len() == N)` AND `the one extra poll returned None`; every early Err is reached only under size_hint lower > N or upper < N (so truthful hints never cause a spurious Err); the source is polled again only when the destination is full (never after it returned None; at most N + 1 polls given the fill shape); the fill is destination.zip(source).for_each(builder closure) with the destination as Zip's receiver over the whole array and the source handed over by &mut, the boxed form goes through take(N) into Vec::with_capacity(N); the builder is a live tracked owner on the unwind path of every foreign call; from_iter = try_* + from_iter_length_fail(N). Holds for every N and every source because the source is an opaque generic iterator in the analysed MIR.",
     "design_ref": "DESIGN.md §3 C07",
     "note": TRUST + " Zip::next polling order and Take are std semantics; the panic message text is not checked.",
 }
 CHECKS["C08"] = {
-    "technique": "iterator-pipeline term matching on abstractly interpreted MIR + per-closure call-count dataflow (exactly-once) + delegation/impl-shape facts",
+    "technique": "iterator-pipeline term matching on abstractly interpreted MIR, in closure-driver or explicit-loop form + per-step call-count dataflow (exactly-once) + delegation/impl-shape facts",
     "text": "Static pipeline-shape analysis: each body's iterator pipeline is reconstructed as a term by the abstract interpreter and matched against its specification - generate (stack/boxed) = for_each(enumerate(iter_mut over the builder's whole array)) with a closure calling F exactly once on every path with the enumerate index and storing the result in the paired slot; map/fold = one forward full traversal of the consumer's array with f called exactly once on the value read (acc first); all six zip bodies pair two forward full traversals by one Zip and call f exactly once with (element of lhs, element of self), zip dispatches (rhs, self, f) to inverted_zip/inverted_zip2; reference receivers forward generate, &S/&mut S/Box use the un-overridden trait defaults whose pipelines are from_iter(map(into_iter(self), f)) / fold(into_iter(self), init, f) over the full forward slice iterators; Default/Clone are the element-wise instances. Any reordering/skipping adaptor is a violation. Parametricity (types) supplies the rest; nothing is executed.",
     "design_ref": "DESIGN.md §3 C08",
     "note": TRUST + " Order semantics of slice::Iter, Enumerate, Zip, Map, for_each, fold are trusted std.",
@@ -118,7 +118,7 @@ CHECKS["C16"] = {
 }
 
 CHECKS["C17"] = {
-    "technique": "MIR shape rules on the serde impls: serializer-call skeleton, guard facts per CFG edge at the Ok construction, builder protocol and owner liveness on ?/unwind paths",
+    "technique": "MIR rules on the serde impls: serializer-call skeleton, per-path facts at every Ok(array) exit (builder full, after finish, no-surplus evidence), builder step protocol and owner liveness on ?/unwind paths",
     "text": "Static analysis of impl_serde.rs: serialize = serialize_tuple(N)?, one serialize_element per item of the full forward iteration of &self (passing that item), then end() - no other serializer entry point, hence no length prefix; deserialize = deserialize_tuple(N, visitor); visit_seq rejects up front only under size_hint = Some(n), n != N, reads one next_element()? per destination slot into that slot and counts it (builder protocol), constructs Ok only under position == N and, on every CFG edge into the success path, either the remaining-size hint equals the probe constant or the extra next_element::<Dummy>()? returned None, keeps the builder live (dropped) on every unwind and `?` path so the elements read so far are released exactly once, and reaches finish/array_assume_init only on the success path. PARTIAL: round-trip equality through a concrete format is a property of serializer/deserializer pairs executed on data and is not claimed.",
     "design_ref": "DESIGN.md §3 C17",
     "note": TRUST + " serde implementations honour their trait contracts; the probe constant Some(0) sits in a promoted constant whose value is not inspected.",
@@ -130,7 +130,7 @@ CHECKS["C18"] = {
     "note": TRUST + " The const evaluator's faithfulness to MIR semantics is trusted.",
 }
 CHECKS["C19"] = {
-    "technique": "delegation/pipeline shape on MIR (zeroize) + aggregate-operand rule on the DEFAULT constant bodies combined with the structural storage induction (const-default)",
+    "technique": "complete-traversal recogniser on MIR (zeroize: iterator impl, for_each closure or next() loop over the full view) + aggregate-operand rule on the DEFAULT constant bodies combined with the structural storage induction (const-default)",
     "text": "Static analysis: zeroize() is as_mut_slice(self) (proved to be the full N-element view) -> iter_mut() -> <IterMut as Zeroize>::zeroize on exactly that iterator, no adaptor or sub-slice; each DEFAULT constant body is a single all-fields struct aggregate whose child operands are <U as ConstDefault>::DEFAULT and whose trailing element is <T as ConstDefault>::DEFAULT, with no call/cast/unsafe in the body, the wrapper's storage is <N::ArrayType<T> as ConstDefault>::DEFAULT, and const_default() returns Self::DEFAULT; with the storage-shape premises of C01.S (re-checked here) every one of the N slots is T::DEFAULT for every binary digit pattern of N, by induction. Agreement with Default::default() and the zeroized value of an element are facts about the element type.",
     "design_ref": "DESIGN.md §3 C19",
     "note": TRUST + " zeroize's IterMut impl and const-default's [T; 0] impl are trusted.",
